@@ -1,13 +1,260 @@
 import Utv.Model.C13
+import Utv.Lemmas.C13Json
 /-!
-C13 — the generated JSON Schema is valid and describes what the parser does.  (first batch: structure clauses)
+C13 — the generated JSON Schema is valid and describes what the parser does.
+
+Part 1 (this section): the structure clauses — `properties`, `required`, `additionalProperties` of the
+input view (and `properties` of the output view) against the parser's treatment of names, for every
+declaration, every class mode and both views.  Part 2: `C13_wf`.  Part 3: `C13_outputs_validate`.
 -/
+set_option linter.unusedSimpArgs false
 namespace Utv.C13
 open Utv.JsonSchema
+
+/-! ## field predicates: static view = run-time view = documented meaning -/
 
 /-- the generator's static input view is the documented one -/
 theorem C13_static_noinput_eq_spec (f : FieldMeta) (o : Opts) : alwaysNoInput f o = Spec.noInput f o := by
   unfold alwaysNoInput Spec.noInput Spec.flagOn Spec.inMode memMode
   cases hfd : (f.final && f.hasDefault) <;> cases hni : f.noInput <;> cases hm : o.mode <;> cases hfm : f.mode <;> simp
+
+/-- the generator's static output view is the documented one -/
+theorem C13_static_nooutput_eq_spec (f : FieldMeta) (o : Opts) : alwaysNoOutput f o = Spec.noOutput f o := by
+  unfold alwaysNoOutput Spec.noOutput Spec.flagOn Spec.inMode memMode
+  cases hni : f.noOutput <;> cases hm : o.mode <;> cases hfm : f.mode <;> simp
+
+/-- what the parser does with a supplied value (`is_no_input`, repaired) is what the generator assumes (`always_no_input`) -/
+theorem C13_runtime_noinput_eq_static (f : FieldMeta) (o : Opts) : isNoInput f o = alwaysNoInput f o := by
+  unfold isNoInput alwaysNoInput
+  cases hfd : (f.final && f.hasDefault) <;> cases hni : f.noInput <;> cases hm : o.mode <;> cases hfm : f.mode <;> simp
+
+/-- what the parser publishes (`is_no_output`, repaired) is what the generator assumes (`always_no_output`) -/
+theorem C13_runtime_nooutput_eq_static (f : FieldMeta) (o : Opts) : isNoOutput f o = alwaysNoOutput f o := by
+  unfold isNoOutput alwaysNoOutput
+  cases hni : f.noOutput <;> cases hm : o.mode <;> cases hfm : f.mode <;> simp
+
+/-- before `fixes/C13-flag-mode.patch`: a field declared for modes r/w only, `no_input='w'`, parsed in mode `a`,
+took input although no schema listed it (a declaration `Field.__init__` accepts) -/
+theorem C13_legacy_flag_mode_witness :
+    ∃ f o, fieldMetaOk f = true ∧ isNoInputLegacy f o = false ∧ alwaysNoInput f o = true :=
+  ⟨{ name := "a", attname := "a", aliases := [], required := .never, hasDefault := false, deferDefault := false,
+     noInput := .modes ['w'], noOutput := .no, mode := some ['r', 'w'], final := false, deps := [], title := none,
+     description := none, deprecated := false, exampleV := none },
+   { mode := some 'a', addition := .drop, ignoreRequired := false, noDefault := false, deferDefault := false },
+   by decide⟩
+
+/-- `is_required` (used by generator and parser alike) is the documented "absence is an error" -/
+theorem C13_required_eq_spec (f : FieldMeta) (o : Opts) : isRequired f o = Spec.absenceIsError f o := by
+  unfold isRequired Spec.absenceIsError
+  rw [C13_static_noinput_eq_spec]
+  cases hi : o.ignoreRequired <;> cases hn : Spec.noInput f o <;> cases hr : f.required <;> simp
+
+/-! ## reading the generated document of a data class -/
+
+theorem genFields_keys (cfg : Cfg) (o : Opts) (fs : List Fld) :
+    keys (genFields cfg o fs) = ((fs.map Fld.meta).filter (fieldVisible cfg o)).map (·.name) := by
+  induction fs with
+  | nil => simp [genFields, keys]
+  | cons f rest ih =>
+    obtain ⟨m, ty⟩ := f
+    rw [genFields.eq_def]
+    simp only [List.map_cons, Fld.meta]
+    by_cases h : fieldVisible cfg o m = true
+    · simp [h, List.filter_cons, keys] at ih ⊢; exact ih
+    · simp [h, List.filter_cons] at ih ⊢; exact ih
+
+theorem filterMap_strOf_strs (xs : List String) : (xs.map Json.str).filterMap strOf = xs := by
+  induction xs with
+  | nil => rfl
+  | cons x rest ih => simp [strOf, ih]
+
+theorem isRequired_visible (cfg : Cfg) (o : Opts) (f : FieldMeta) (h : cfg.output = false) :
+    (fieldVisible cfg o f && listedRequired cfg o f) = Spec.absenceIsError f o := by
+  rw [← C13_required_eq_spec]
+  unfold fieldVisible listedRequired isRequired
+  cases ha : alwaysNoInput f o <;> simp [h]
+
+theorem lookup_properties_data (cfg : Cfg) (c : ClassMeta) (fs : List Fld) (a : Ty) :
+    lookup "properties" (gen cfg (.data c fs a)) = some (.obj (genFields cfg (effOpts cfg c) fs)) := by
+  rw [gen.eq_def]; simp [lookup]
+
+/-- `properties` of the input view lists exactly the fields the parser takes input for (class mode) -/
+theorem C13_properties_iff_accepted (gm : Option Char) (c : ClassMeta) (fs : List Fld) (a : Ty) :
+    propertyNames (generate ⟨false, gm⟩ (.data c fs a)) =
+      ((fs.map Fld.meta).filter fun f => !isNoInput f c.opts).map (·.name) := by
+  simp only [propertyNames, generate, lookup_properties_data, genFields_keys, effOpts]
+  congr 1
+  apply List.filter_congr
+  intro f _
+  simp [fieldVisible, C13_runtime_noinput_eq_static]
+
+/-- … in the property's own words: a name is a listed property iff it names a field that exists in this mode,
+is not closed to input, and is not a defaulted `Final` -/
+theorem C13_properties_iff_spec (gm : Option Char) (c : ClassMeta) (fs : List Fld) (a : Ty) (name : String) :
+    name ∈ propertyNames (generate ⟨false, gm⟩ (.data c fs a)) ↔
+      ∃ f ∈ fs.map Fld.meta, f.name = name ∧ Spec.noInput f c.opts = false := by
+  rw [C13_properties_iff_accepted]
+  simp only [List.mem_map, List.mem_filter, C13_runtime_noinput_eq_static, C13_static_noinput_eq_spec]
+  constructor
+  · rintro ⟨f, ⟨⟨g, hg, rfl⟩, hf⟩, rfl⟩
+    exact ⟨g.meta, ⟨g, hg, rfl⟩, rfl, by simpa using hf⟩
+  · rintro ⟨f, ⟨g, hg, rfl⟩, rfl, hf⟩
+    exact ⟨g.meta, ⟨⟨g, hg, rfl⟩, by simpa using hf⟩, rfl⟩
+
+/-- `properties` of the output view lists exactly the fields the parser publishes in this mode -/
+theorem C13_output_properties_iff_published (gm : Option Char) (c : ClassMeta) (fs : List Fld) (a : Ty) :
+    propertyNames (generate ⟨true, gm⟩ (.data c fs a)) =
+      ((fs.map Fld.meta).filter fun f => !isNoOutput f c.opts).map (·.name) := by
+  simp only [propertyNames, generate, lookup_properties_data, genFields_keys, effOpts]
+  congr 1
+  apply List.filter_congr
+  intro f _
+  simp [fieldVisible, C13_runtime_nooutput_eq_static]
+
+theorem lookup_classAnnotations (k : String) (o : Opts) (h : (k == "x-annotation") = false) :
+    lookup k (classAnnotations o) = none := by
+  unfold classAnnotations
+  cases o.mode <;> simp [lookup, h, BEq.comm]
+
+theorem lookup_reqSeg_ne (k : String) (cfg : Cfg) (o : Opts) (ms : List FieldMeta) (h : (k == "required") = false) :
+    lookup k (reqSeg cfg o ms) = none := by
+  unfold reqSeg; split <;> simp [lookup, h, BEq.comm]
+
+theorem lookup_depSeg_ne (k : String) (cfg : Cfg) (o : Opts) (ms : List FieldMeta) (h : (k == "dependentRequired") = false) :
+    lookup k (depSeg cfg o ms) = none := by
+  unfold depSeg; split <;> simp [lookup, h, BEq.comm]
+
+theorem lookup_addSeg_ne (k : String) (o : Opts) (s : Obj) (h : (k == "additionalProperties") = false) :
+    lookup k (addSeg o s) = none := by
+  unfold addSeg; cases o.addition <;> simp [lookup, h, BEq.comm]
+
+theorem lookup_reqSeg (cfg : Cfg) (o : Opts) (ms : List FieldMeta) :
+    lookup "required" (reqSeg cfg o ms) =
+      (if (requiredNames cfg o ms).isEmpty then none else some (strArr (requiredNames cfg o ms))) := by
+  unfold reqSeg
+  by_cases h : (requiredNames cfg o ms).isEmpty = true
+  · rw [if_pos h, if_pos h]; rfl
+  · rw [if_neg h, if_neg h]; simp [lookup]
+
+theorem lookup_required_data (cfg : Cfg) (c : ClassMeta) (fs : List Fld) (a : Ty) :
+    lookup "required" (gen cfg (.data c fs a)) =
+      (if (requiredNames cfg (effOpts cfg c) (fs.map Fld.meta)).isEmpty then none
+       else some (strArr (requiredNames cfg (effOpts cfg c) (fs.map Fld.meta)))) := by
+  rw [gen.eq_def]
+  simp only [lookup_append]
+  rw [lookup_depSeg_ne _ _ _ _ (by decide), lookup_addSeg_ne _ _ _ (by decide), lookup_classAnnotations _ _ (by decide),
+    lookup_reqSeg]
+  have h0 : ∀ x : Json, lookup "required" [("type", Json.str "object"), ("properties", x)] = none := by
+    intro x; simp [lookup]
+  rw [h0]
+  by_cases h : (requiredNames cfg (effOpts cfg c) (fs.map Fld.meta)).isEmpty = true
+  · rw [if_pos h]
+  · rw [if_neg h]
+
+/-- `required` of the input view lists exactly the fields whose absence is an error (class mode) -/
+theorem C13_required_iff_absence_error (gm : Option Char) (c : ClassMeta) (fs : List Fld) (a : Ty) :
+    requiredOf (generate ⟨false, gm⟩ (.data c fs a)) =
+      ((fs.map Fld.meta).filter fun f => Spec.absenceIsError f c.opts).map (·.name) := by
+  have hf : requiredNames ⟨false, gm⟩ (effOpts ⟨false, gm⟩ c) (fs.map Fld.meta) =
+      ((fs.map Fld.meta).filter fun f => Spec.absenceIsError f c.opts).map (·.name) := by
+    unfold requiredNames
+    congr 1
+    apply List.filter_congr
+    intro f _
+    exact isRequired_visible ⟨false, gm⟩ c.opts f rfl
+  simp only [requiredOf, generate, lookup_required_data]
+  by_cases h : (requiredNames ⟨false, gm⟩ (effOpts ⟨false, gm⟩ c) (fs.map Fld.meta)).isEmpty = true
+  · rw [if_pos h, ← hf]
+    simpa using h
+  · rw [if_neg h]
+    simp only [strArr, filterMap_strOf_strs]
+    exact hf
+
+theorem lookup_addSeg (o : Opts) (s : Obj) :
+    lookup "additionalProperties" (addSeg o s) =
+      (match o.addition with
+       | .drop => none
+       | .reject => some (.bool false)
+       | .keep => some (.bool true)
+       | .convert => some (.obj s)) := by
+  unfold addSeg
+  cases o.addition <;> simp [lookup]
+
+theorem lookup_additional_data (cfg : Cfg) (c : ClassMeta) (fs : List Fld) (a : Ty) :
+    lookup "additionalProperties" (gen cfg (.data c fs a)) =
+      (match (effOpts cfg c).addition with
+       | .drop => none
+       | .reject => some (.bool false)
+       | .keep => some (.bool true)
+       | .convert => some (.obj (gen cfg a))) := by
+  rw [gen.eq_def]
+  simp only [lookup_append]
+  rw [lookup_reqSeg_ne _ _ _ _ (by decide), lookup_depSeg_ne _ _ _ _ (by decide), lookup_classAnnotations _ _ (by decide),
+    lookup_addSeg]
+  have h0 : ∀ x : Json, lookup "additionalProperties" [("type", Json.str "object"), ("properties", x)] = none := by
+    intro x; simp [lookup]
+  rw [h0]
+  cases (effOpts cfg c).addition <;> rfl
+
+/-- `additionalProperties` says exactly what the parser does with unknown keys:
+absent ↔ dropped, `false` ↔ rejected, `true` ↔ kept, the addition type's schema ↔ converted -/
+theorem C13_additional_reflects_policy (cfg : Cfg) (c : ClassMeta) (fs : List Fld) (a : Ty) :
+    additionalOf (generate cfg (.data c fs a)) = Spec.additionalMeans cfg a (parserUnknown c.opts) := by
+  simp only [additionalOf, generate, lookup_additional_data, effOpts, parserUnknown]
+  cases c.opts.addition <;> simp [Spec.additionalMeans, generate]
+
+/-- … and the four answers are pairwise different, so the document determines the treatment -/
+theorem C13_additional_policy_determined (cfg : Cfg) (a : Ty) (u u' : Spec.Unknown)
+    (h : Spec.additionalMeans cfg a u = Spec.additionalMeans cfg a u') : u = u' := by
+  cases u <;> cases u' <;> simp [Spec.additionalMeans, generate] at h ⊢
+
+/-- the parser's treatment of unknown keys is the documented one -/
+theorem C13_unknown_keys_eq_spec (o : Opts) : parserUnknown o = Spec.unknownKeys o := by
+  cases h : o.addition <;> simp [parserUnknown, Spec.unknownKeys, h]
+
+/-! ## the generator's `mode` argument (known finding `generator-mode-ignored`)
+
+Full statement (false of the code as it is):
+  `∀ cfg c fs a, propertyNames (generate ⟨false, cfg.genMode⟩ (.data c fs a)) =
+      ((fs.map Fld.meta).filter fun f => !isNoInput f (requestedOpts cfg c)).map (·.name)`
+and the same for `required`. -/
+
+theorem C13_mode_param_partial (cfg : Cfg) (c : ClassMeta) (fs : List Fld) (a : Ty)
+    (h : KnownDefect.modeIgnored cfg c = false) :
+    propertyNames (generate ⟨false, cfg.genMode⟩ (.data c fs a)) =
+        ((fs.map Fld.meta).filter fun f => !isNoInput f (requestedOpts cfg c)).map (·.name) ∧
+    requiredOf (generate ⟨false, cfg.genMode⟩ (.data c fs a)) =
+        ((fs.map Fld.meta).filter fun f => Spec.absenceIsError f (requestedOpts cfg c)).map (·.name) := by
+  have ho : requestedOpts cfg c = c.opts := by
+    unfold requestedOpts
+    unfold KnownDefect.modeIgnored at h
+    cases hm : cfg.genMode with
+    | none => rfl
+    | some m =>
+      simp [hm] at h
+      cases c with
+      | mk n o => cases o; simp_all
+  rw [ho]
+  exact ⟨C13_properties_iff_accepted _ c fs a, C13_required_iff_absence_error _ c fs a⟩
+
+def witnessField : FieldMeta :=
+  { name := "a", attname := "a", aliases := [], required := .always, hasDefault := false, deferDefault := false,
+    noInput := .no, noOutput := .no, mode := some ['w'], final := false, deps := [], title := none,
+    description := none, deprecated := false, exampleV := none }
+
+def witnessClass : ClassMeta :=
+  ⟨"W1", { mode := none, addition := .drop, ignoreRequired := false, noDefault := false, deferDefault := false }⟩
+
+/-- a write-only field of a mode-less class: asked for mode `r`, the generator still lists and requires it -/
+theorem C13_mode_param_ignored_witness :
+    ∃ cfg c fs a, KnownDefect.modeIgnored cfg c = true ∧
+      propertyNames (generate ⟨false, cfg.genMode⟩ (.data c fs a)) ≠
+        ((fs.map Fld.meta).filter fun f => !isNoInput f (requestedOpts cfg c)).map (·.name) :=
+  ⟨⟨false, some 'r'⟩, witnessClass, [.mk witnessField (.plain .int)], .any, by decide, by decide⟩
+
+/-- the hypotheses of the partial theorem are satisfiable, with a non-empty answer -/
+example : ∃ cfg c fs a, KnownDefect.modeIgnored cfg c = false ∧
+    propertyNames (generate ⟨false, cfg.genMode⟩ (.data c fs a)) = ["a"] :=
+  ⟨⟨false, none⟩, witnessClass, [.mk witnessField (.plain .int)], .any, by decide, by decide⟩
 
 end Utv.C13
